@@ -116,9 +116,11 @@ def run(c):
     # the systematic tables of the other checks go through the type checker too
     jobs += [(j, ["-matrix-design"]) for j in range(extra)] + [(j, ["-alias-design"]) for j in range(min(extra, 40))]
     jobs += [(j, ["-views-design"]) for j in range(extra)]
+    jobs += [(j, ["-mapkey-design"]) for j in range(36 if c.tier == "quick" else 108)]  # every primitive as a map key
     jobs += [(3, ["-matrix-design", "-loose-defaults"])]  # collection defaults handed to Default() as []any / map[string]any
     c.cov["rule"] += (" Plus %d designs each of the systematic transport table (-matrix-design), the primitive-alias designs (-alias-design, at most 40) "
-                      "and the result-type/view designs (-views-design)." % extra)
+                      "and the result-type/view designs (-views-design); plus the table of every primitive as a map key in request body, response body and "
+                      "query string (-mapkey-design)." % extra)
     results = designs.parallel(one, jobs)
     shutil.rmtree(work, ignore_errors=True)
     programs = 0
@@ -144,6 +146,10 @@ def run(c):
         else:
             first = r["detail"].strip().splitlines()[0][:120] if r["detail"].strip() else ""
             sig = "%s: %s" % (r["status"], re.sub(r"\d+", "N", first))
+            mk = re.search(r"json: unsupported type: map\[([^\]]+)\]", r["detail"])
+            if mk:
+                # the example of a map whose key type encoding/json cannot write as an object key
+                sig = "%s: openapi: json: unsupported type: map[%s]" % (r["status"], re.sub(r"\d+", "", mk.group(1)))
             what = "accepted design makes a later stage fail (%s): %s" % (r["status"], first)
         c.fail(sig, what, input={"seed": c.seed, "index": r["index"], "flags": r["flags"]}, design=json.loads(r["design"]),
                expected="gen and example succeed and `go build ./...` passes", actual=r["detail"][-1500:])
